@@ -70,8 +70,14 @@ class HistGen:
         return self.idcount
 
     def unique_int(self):
+        # mostly unique (every read attributable to one write), but equal
+        # values under one key are a situation of their own
+        if self.vcount and self.rng.random() < self.p_repeat:
+            return self.rng.randint(1, self.vcount)
         self.vcount += 1
         return self.vcount
+
+    p_repeat = 0.12
 
     def key(self, mc=None, want_present=None):
         r = self.rng
